@@ -775,4 +775,275 @@ def check_C14(tier, seed):
                     assumptions=ASSUME_DYN, extra_cov={"policy_tuples": pairs + triples})
 
 
-CHECKS = {"C07": check_C07, "C10": check_C10, "C14": check_C14, "C04": check_C04, "C08": check_C08, "C01": check_C01, "C02": check_C02, "C03": check_C03, "C06": check_C06, "C17": check_C17}
+# ---------------------------------------------------------------------------
+def pick_chain(rng, classes, anc, maxlen=4):
+    """A chain c0 <- c1 <- ... in the lattice (each derived from the previous)."""
+    chain = [rng.choice(classes)]
+    while len(chain) < maxlen:
+        nxt = [c for c in classes if chain[-1] in anc[c] and c != chain[-1]]
+        if not nxt or rng.random() < 0.15:
+            break
+        chain.append(rng.choice(nxt))
+    return chain
+
+
+VP_POLICIES = ["fast", "chk", "vec", "map", "ind", "indvec", "indfast", "old", "dbg", "rel", "rem", "dfr", "thr"]
+
+
+def vptr_script(rng, sid, policies, n=None):
+    n = n or rng.randrange(3, 9)
+    classes, edges, _, _, abstract, kind = S.random_registry(rng, n, 0, 1, 0)
+    anc = S.anc_closure(edges, classes)
+    cov = {c: [x for x in classes if c in anc[x]] for c in classes}
+    chain = pick_chain(rng, classes, anc)
+    s = S.Script(sid, [[p] for p in policies])
+    for k, c in enumerate(chain):
+        s.node(k, c)
+    for c, bases in S.presentation(rng.choice(["direct", "complete"]), classes, edges, rng):
+        s.cls(c, bases)
+    root = rng.choice(sorted(anc[chain[0]]))
+    # methods whose virtual parameters are virtual_ptr / const virtual_ptr& / virtual_shared_ptr
+    mdefs = [(1, "P", [root]), (2, "R", [root]), (3, "Q", [root]), (4, "RNP", [root, root]), (5, "QQ", [root, root])]
+    extra = [(6, "PNRP", [root, root, root]), (7, "V", [root]), (8, "VV", [root, root])]
+    declared = []
+
+    def declare(m, shape, vp):
+        s.method(m, shape, vp)
+        declared.append((m, shape, vp))
+        for d in range(rng.randrange(1, 4)):
+            s.defn(m, d, [rng.choice(cov[v]) for v in vp])
+    for m, shape, vp in mdefs:
+        declare(m, shape, vp)
+    s.update()
+    handles = {}   # h -> (k, dyn, shared)
+    nexth = [1]
+
+    def make():
+        h = nexth[0]
+        nexth[0] += 1
+        k = rng.randrange(len(chain))
+        route = rng.choice(["ref", "ref", "ref", "final", "sh_lv", "sh_rv", "sh_base", "sh_final", "mk"])
+        if route in ("final", "sh_final", "mk"):
+            dyn = chain[k]
+        else:
+            dyn = rng.choice(cov[chain[k]]) if rng.random() < 0.7 else chain[k]
+        s.vmake(h, k, route, dyn)
+        handles[h] = (k, dyn, route.startswith("sh") or route == "mk")
+        return h
+
+    def derive():
+        if not handles:
+            return
+        src = rng.choice(sorted(handles))
+        k, dyn, shared = handles[src]
+        route = rng.choice(["copy", "move", "conv", "convmove", "cast"])
+        if route in ("copy", "move"):
+            k2 = k
+        elif route in ("conv", "convmove"):
+            k2 = rng.randrange(0, k + 1)
+        else:
+            ok = [j for j in range(k, len(chain)) if chain[j] in anc[dyn]]
+            k2 = rng.choice(ok)
+        h = nexth[0]
+        nexth[0] += 1
+        s.vderive(h, src, route, k2)
+        handles[h] = (k2, dyn, shared)
+
+    def use():
+        m, shape, vp = rng.choice([x for x in declared if set(x[1]) <= set("PRQN")])
+        want_shared = "Q" in shape
+        pool = [h for h, (k, dyn, sh) in handles.items() if sh == want_shared]
+        if not pool:
+            return
+        hs = [rng.choice(pool) for _ in vp]
+        s.vcall(m, hs)
+    for phase in range(rng.randrange(1, 4)):
+        for _ in range(rng.randrange(3, 10)):
+            x = rng.random()
+            if x < 0.35 or not handles:
+                make()
+            elif x < 0.55:
+                derive()
+            elif x < 0.65:
+                s.vget(rng.choice(sorted(handles)))
+            elif x < 0.7 and len(handles) > 2:
+                h = rng.choice(sorted(handles))
+                s.vdrop(h)
+                del handles[h]
+            else:
+                use()
+        # an update that moves things: a new method (slots change), then everything is used again
+        if extra:
+            declare(*extra.pop(0))
+        s.update()
+        for _ in range(rng.randrange(2, 6)):
+            use()
+        for h in sorted(handles)[:3]:
+            s.vget(h)
+    s.table(1)
+    return s
+
+
+def check_C09(tier, seed):
+    TCFG = "TraceYomm2_dispatch.cfg"
+    t0 = time.time()
+    out = F.Outcome("C09")
+    rng = random.Random(seed)
+    exe = C.build_dyn()
+    # design level: handle validity across updates on the behavioural model
+    F.model_check(out, "VptrMC.tla", "VptrMC.cfg")
+    scs = [vptr_script(rng, "vp-%d" % i, VP_POLICIES) for i in range(400 if tier == "quick" else 8000)]
+    F.execute_and_validate("C09", exe, scs, out, "c09", TCFG)
+
+    def other_object(ev):
+        if ev.get("o", -1) >= 0 and ev["recv"]:
+            ev["recv"][0] += 1
+            return True
+        return False
+
+    def flip_vcall(ev):
+        ev["o"] = 0 if ev["o"] != 0 else -1
+        return True
+    for s in scs[:30]:
+        if F.selftest_corruption(exe, s, out, mutate_first("vcall", flip_vcall), "outcome of a call through a virtual_ptr altered", TCFG, must=False):
+            break
+    for s in scs[:30]:
+        if F.selftest_corruption(exe, s, out, mutate_first("vcall", other_object), "identity of the object received through a virtual_ptr altered", TCFG, must=False):
+            break
+    out.need_selftest = True
+    used = out.action_counts.get("vcall", 0)
+    skipped = out.action_counts.get("vskip", 0)
+    if used == 0 or skipped == 0:
+        raise C.ToolFailure("vacuous: no call through a handle / no stale direct handle encountered")
+    return F.report("C09", tier, seed, out, t0, LEVEL,
+                    rule="a case = one script on a random lattice under one policy: virtual_ptr / virtual_shared_ptr handles are created by every "
+                         "route (reference to exact type, base reference to derived object, final, shared_ptr lvalue / rvalue / most-derived, "
+                         "make_virtual_shared), copied, moved, converted, cast, used in calls to methods taking virtual_ptr, const virtual_ptr& and "
+                         "virtual_shared_ptr parameters, across updates that add methods; every call through handles must equal the oracle for the "
+                         "pointees' classes and deliver the original objects; distinct_nontrivial = distinct scripts",
+                    assumptions=ASSUME_DYN + ["the C++ static type of a handle is a node of a 4-class chain whose static type ids are run-time values mapped onto a chain of the registered lattice"],
+                    extra_cov={"policies": VP_POLICIES, "calls_through_handles": used, "stale_direct_handles_not_used": skipped})
+
+
+CHECKED = ["chk", "ind", "dbg", "rem"]
+
+
+def unknown_scripts(rng, count, policies):
+    """One class left out, at every place it can occur."""
+    scs = []
+    for i in range(count):
+        n = rng.randrange(3, 8)
+        classes, edges, methods, defs, abstract, kind = S.random_registry(rng, n, rng.randrange(1, 4), 3, 4,
+                                                                          shapes=["V", "W", "S", "P", "VV", "VNV", "VP", "WS", "PP", "VVV", "PVP"])
+        if not methods:
+            continue
+        anc = S.anc_closure(edges, classes)
+        x = rng.choice(classes)               # the class that is not registered
+        mode = rng.choice(["update", "call", "call", "vptr"])
+        s = S.Script("unk-%d-%s" % (i, mode), [[p] for p in policies])
+        mentioned_in_methods = any(x in vp for _, _, vp in methods) or any(x in vp for _, _, vp in defs)
+        derived_from_x = [c for c in classes if x in anc[c] and c != x]
+        if mode == "update":
+            # x is mentioned by a base list, a method parameter or a definition parameter
+            for c, bases in S.presentation("direct", classes, edges, rng):
+                if c != x:
+                    s.cls(c, bases)
+            for m, sh, vp in methods:
+                s.method(m, sh, vp)
+            for m, d, vp in defs:
+                s.defn(m, d, vp)
+            s.update()
+            s.update()
+        else:
+            # x is mentioned nowhere in the catalogs: it only shows up as the dynamic class of an argument
+            keep = [c for c in classes if x not in anc[c] or c == x]   # drop classes derived from x: they would list x as a base
+            keep_set = set(keep) - {x}
+            methods = [(m, sh, vp) for m, sh, vp in methods if all(v in keep_set for v in vp)]
+            defs = [(m, d, vp) for m, d, vp in defs if any(m == mm for mm, _, _ in methods) and all(v in keep_set for v in vp)]
+            if not methods:
+                continue
+            chain_root = None
+            if mode == "vptr":
+                # node 0 = a registered base of x (or x itself when it has none), node 1 = x
+                bases_of_x = sorted(anc[x] - {x})
+                chain_root = rng.choice(bases_of_x) if bases_of_x else None
+                if chain_root is not None:
+                    s.node(0, chain_root)
+                    s.node(1, x)
+                else:
+                    s.node(0, x)
+            for c, bases in S.presentation("direct", keep, [(d, b) for d, b in edges if d in keep_set and b in keep_set], rng):
+                if c != x:
+                    s.cls(c, bases)
+            for m, sh, vp in methods:
+                s.method(m, sh, vp)
+            for m, d, vp in defs:
+                s.defn(m, d, vp)
+            s.update()
+            s.layout()
+            if mode == "call":
+                for m, sh, vp in methods:
+                    acceptable = [i for i, v in enumerate(vp) if v in anc[x]]   # positions where an x object can be passed in C++
+                    for pos in acceptable:
+                        t = [rng.choice([c for c in keep_set if v in anc[c]]) for v in vp]
+                        t[pos] = x
+                        s.call(m, t)
+                        s.resolve(m, t) if False else None
+                    s.table(m)      # later calls still dispatch
+            else:
+                h = 1
+                if chain_root is not None:
+                    s.vmake(h, 0, "ref", x); h += 1            # base reference to an object of the unregistered class
+                    s.vmake(h, 1, "ref", x); h += 1            # exact static type, unregistered
+                    s.vmake(h, 1, "final", x); h += 1
+                    s.vmake(h, 0, "sh_lv", x); h += 1
+                    s.vmake(h, 1, "sh_rv", x); h += 1
+                    s.vmake(h, 1, "mk", x); h += 1
+                    s.vmake(h, 0, "final", x); h += 1          # final with another dynamic type: method table error
+                    s.vmake(h, 0, "sh_final", x); h += 1
+                    other = [c for c in keep_set if chain_root in anc[c] and c != chain_root]
+                    if other:
+                        s.vmake(h, 0, "final", rng.choice(other)); h += 1
+                else:
+                    s.vmake(h, 0, "ref", x); h += 1
+                    s.vmake(h, 0, "final", x); h += 1
+                    s.vmake(h, 0, "mk", x); h += 1
+                for m, sh, vp in methods:
+                    s.table(m)
+        scs.append(s)
+    return scs
+
+
+def check_C15(tier, seed):
+    TCFG = "TraceYomm2_dispatch.cfg"
+    t0 = time.time()
+    out = F.Outcome("C15")
+    rng = random.Random(seed)
+    exe = C.build_dyn()
+    F.model_check(out, "Yomm2MC.tla", "Yomm2MC_small.cfg" if tier == "quick" else "Yomm2MC_mid.cfg")   # UpdateUnknown reachable and consistent
+    # histories in which classes go missing while still mentioned (update-time diagnosis), every checked policy
+    hs = gen_histories("Yomm2MC_small.cfg", out)
+    scs = [S.history_script("mcu-%d" % i, [[p] for p in CHECKED + ["stdd"]], h, shape_k=i) for i, h in enumerate(hs)]
+    F.execute_and_validate("C15", exe, scs, out, "c15-mc", TCFG)
+    scs = unknown_scripts(rng, 600 if tier == "quick" else 10000, CHECKED)
+    F.execute_and_validate("C15", exe, scs, out, "c15-rnd", TCFG)
+    n_unknown_upd = 0
+    for s in scs[:40]:
+        def wrong_class(ev):
+            if ev.get("then") == "unknown":
+                ev["c"] = ev["c"] + 1
+                return True
+            return False
+        if F.selftest_corruption(exe, s, out, mutate_first("call", wrong_class), "class carried by a recorded unknown-class report altered", TCFG, must=False):
+            break
+    out.need_selftest = True
+    return F.report("C15", tier, seed, out, t0, LEVEL,
+                    rule="a case = one registry with one class left out under one checked policy (checked hash + error output, incl. the rebound "
+                         "stock debug policy): mentioned by a base list / method / definition (update must report it), or appearing only as the dynamic "
+                         "class of an argument at each virtual position by reference, pointer, shared_ptr and virtual_ptr, or as the pointee of every "
+                         "virtual_ptr construction route; final with another dynamic type; distinct_nontrivial = distinct scripts",
+                    assumptions=ASSUME_DYN + ["'no table read first' is decided on the v-table reads reported by hook H2: reads made for earlier, registered arguments of the same call are legal"],
+                    extra_cov={"policies": CHECKED})
+
+
+CHECKS = {"C09": check_C09, "C15": check_C15, "C07": check_C07, "C10": check_C10, "C14": check_C14, "C04": check_C04, "C08": check_C08, "C01": check_C01, "C02": check_C02, "C03": check_C03, "C06": check_C06, "C17": check_C17}
